@@ -25,7 +25,10 @@ def main():
             engines.update(r.get("engines", {}))
             for k, v in r.get("props", {}).items():
                 if k in props:
+                    # one property served by several engines (stages): describe every stage
                     props[k]["stages"].extend(v["stages"])
+                    for key in ("level_text", "level_note", "rule"):
+                        props[k][key] = props[k].get(key, "") + " || NEXT STAGE (%s): " % "+".join(sorted({s2["engine"] for s2 in v["stages"]})) + v.get(key, "")
                 else:
                     props[k] = v
     all_ids = [json.loads(l)["id"] for l in open(os.path.join(VERIF, "properties.jsonl")) if l.strip()]
